@@ -233,7 +233,8 @@ def splice_fn(out: Out, it: Item, file: str, fid: str, *, ret: str = 'res',
               sink: str = 'writer',
               imported: Optional[str] = None,
               closures: List[dict] = (),
-              loop_isolation: bool = True):
+              loop_isolation: bool = True,
+              specified: tuple = ()):
     """emit fn item `it` with contract clauses spliced between its signature and its body.
     Executable tokens of the body are emitted unchanged and in order."""
     toks = it.toks
@@ -472,7 +473,7 @@ def splice_fn(out: Out, it: Item, file: str, fid: str, *, ret: str = 'res',
             t = toks[k]
             if not _live(k):
                 continue
-            if t.kind == 'ident' and t.text in UNSPECIFIED_STD and toks[_prev_sig(toks, k - 1)].text == '.' and toks[_next_sig(toks, k + 1)].text in ('(', '::'):
+            if t.kind == 'ident' and t.text in UNSPECIFIED_STD and t.text not in specified and toks[_prev_sig(toks, k - 1)].text == '.' and toks[_next_sig(toks, k + 1)].text in ('(', '::'):
                 notes.append(f'std method `.{t.text}(..)` has no contract ({file}:{it.line_of(t.start)})')
             if t.kind == 'punct' and t.text in ('|', '||') and toks[_prev_sig(toks, k - 1)].text in ('(', ',', '=', '{', ';', 'move', 'return'):
                 e = k
